@@ -319,6 +319,9 @@ def sites(tier):
                     for k1, k2 in (("SNV", "SNV"), ("SNV", "INS"), ("DEL", "SNV")):
                         if symoff in (-6, 3):
                             out.append(("sym", ("pair", k1, k2, 30, seed0), symalt, symoff))
+        # one record with two ALT alleles (multi-allelic reading, as under polyphase)
+        for config in MAV_CONFIGS:
+            out.append(("mav", config, seed0 + rep))
         # a longer first indel followed closely by a second variant
         for k1, k2 in (("INS", "INS"), ("INS", "SNV"), ("INS", "DEL"), ("DEL", "INS"), ("DEL", "SNV"), ("DEL", "DEL")):
             for len1 in (1, 2, 3):
@@ -336,6 +339,8 @@ def run_site(site):
     from whatshap.variants import ReadSetReader
     from whatshap.vcf import VcfReader
 
+    if site[0] == "mav":
+        return run_mav(site)
     sym = None
     if site[0] == "sym":
         # a record with a symbolic ALT (ignored by allele detection) in the list, before or behind the site's variants
@@ -435,6 +440,107 @@ def run_site(site):
                             extra[f"undetected_{mode}"] = extra.get(f"undetected_{mode}", 0) + 1
                     outcomes.add((mode, e["style"].split("-")[0], vi in g))
     return Result(n=n, nontrivial=nt, violations=viols[:12], outcomes=outcomes, extra=extra)
+
+
+MAV_CONFIGS = ("snv2", "ins-nested", "ins-nested-rev", "ins-distinct", "del-nested", "del-nested-rev", "snv+ins", "ins+snv", "snv+del", "del+snv", "mnp2")
+
+
+def mav_site(config, seed):
+    """one record with two ALT alleles at V on a random reference; returns (seq, Var)"""
+    seq = list(synth.make_reference(seed, 260))
+    a = seq[V]
+    if seq[V + 1] == a:
+        seq[V + 1] = synth.other_base(a)
+    n_ = seq[V + 1]
+    g, h = [b for b in "ACGT" if b not in (a, n_)]
+    o1, o2 = synth.other_base(a, 1), synth.other_base(a, 2)
+    if config == "snv2":
+        v = synth.Var(V, a, [o1, o2], "SNV")
+    elif config in ("ins-nested", "ins-nested-rev"):
+        alts = [a + g * 3, a + g]
+        v = synth.Var(V, a, alts if config == "ins-nested" else alts[::-1], "INS")
+    elif config == "ins-distinct":
+        v = synth.Var(V, a, [a + g + h, a + h + g], "INS")
+    elif config in ("del-nested", "del-nested-rev"):
+        # the deleted stretch b1 b2 b3 is followed by a base different from b3 (and b1 differs from the anchor)
+        for i, b in ((2, g), (3, h), (4, n_)):
+            seq[V + i] = b
+        ref = "".join(seq[V : V + 4])
+        alts = [a, a + seq[V + 3]]
+        v = synth.Var(V, ref, alts if config == "del-nested" else alts[::-1], "DEL")
+    elif config in ("snv+ins", "ins+snv"):
+        alts = [o1, a + g]
+        v = synth.Var(V, a, alts if config == "snv+ins" else alts[::-1], "INS")
+    elif config in ("snv+del", "del+snv"):
+        seq[V + 2] = g
+        alts = [o1 + n_, a]
+        v = synth.Var(V, a + n_, alts if config == "snv+del" else alts[::-1], "DEL")
+    elif config == "mnp2":
+        b = seq[V + 1]
+        v = synth.Var(V, a + b, [o1 + synth.other_base(b, 1), o2 + synth.other_base(b, 2)], "MNP")
+    else:
+        raise ValueError(config)
+    return "".join(seq), v
+
+
+def run_mav(site):
+    """multi-allelic record (read with mav=True): the allele recorded for an exact copy of a haplotype is the one
+    it carries or none"""
+    from whatshap.core import NumericSampleIds
+    from whatshap.variants import ReadSetReader
+    from whatshap.vcf import VcfReader
+
+    _, config, seed = site
+    seq, v = mav_site(config, seed)
+    fend = v.pos + len(v.ref)
+    alns, exp = [], {}
+    for c in (0, 1, 2):
+        al = v.allele(c)
+        for so in (0, 1, 3, 10, 14):
+            for eo in (0, 1, 3, 10, 14):
+                for style in ("M", "=X"):
+                    start, end = v.pos - so, fend + eo
+                    if len(al) < len(v.ref) and eo == 0:
+                        continue
+                    try:
+                        q, cig = synth.hap_read(seq, [v], [c], start, end, style)
+                    except ValueError:
+                        continue
+                    if cig[-1][0] in (1, 2):
+                        continue  # alignments do not end with an indel operator
+                    nm = f"m{len(alns)}"
+                    alns.append({"name": nm, "chrom": "chrA", "start": start, "cigar": cig, "seq": q, "rg": "rg1", "flag": 0, "qual": 30, "mate": None})
+                    exp[nm] = {"carried": c, "style": style, "geom": (c, so, eo), "full": eo >= 1}
+    viols = []
+    n = nt = 0
+    outcomes = set()
+    with synth.Scratch("c06") as sc:
+        fasta = synth.write_fasta(os.path.join(sc.path, "ref.fa"), [("chrA", seq)])
+        vcf = synth.VcfText(["S1"], contigs=[("chrA", len(seq))])
+        vcf.add("chrA", v.pos, v.ref, v.alts, ["1/2"])
+        vcf_path = vcf.write(os.path.join(sc.path, "in.vcf"))
+        bam = os.path.join(sc.path, "reads.bam")
+        synth.write_bam(bam, [("chrA", len(seq))], alns, read_groups=[{"ID": "rg1", "SM": "S1"}])
+        with VcfReader(vcf_path, mav=True) as vr:
+            tables = list(vr)
+        assert len(tables) == 1 and len(tables[0].variants) == 1, (site, tables)
+        wvars = tables[0].variants
+        for mode in ("ref", "noref"):
+            nsi = NumericSampleIds()
+            with ReadSetReader([bam], reference=fasta if mode == "ref" else None, numeric_sample_ids=nsi, mapq_threshold=20) as rsr:
+                rs = rsr.read("chrA", wvars, "S1", seq if mode == "ref" else None)
+            got = {r.name: [x.allele for x in r] for r in rs}
+            for nm, e in exp.items():
+                n += 1
+                g = got.get(nm, [])
+                if g and g[0] != e["carried"]:
+                    viols.append(_v("wrong-allele", mode, site, nm, e, f"multi-allelic record {v}: recorded allele {g[0]}, the haplotype carries {e['carried']}", sub=":multi-allelic"))
+                elif not g and e["full"] and (mode == "ref" or config == "snv2"):
+                    viols.append(_v("missed", mode, site, nm, e, f"multi-allelic record {v} fully covered, allele {e['carried']} not recorded", sub=":multi-allelic"))
+                if e["full"]:
+                    nt += 1
+                outcomes.add((mode, "mav", config.split("-")[0], bool(g)))
+    return Result(n=n, nontrivial=nt, violations=viols[:12], outcomes=outcomes)
 
 
 def _lev(a, b):
